@@ -3121,7 +3121,17 @@ func isInConstOrTypeDecl(n *node) bool {
 
 // isConstString returns true if node is a string constant, the length of which is a constant.
 func isConstString(n *node) bool {
-	return n.rval.IsValid() && isString(n.typ.TypeOf()) && (n.kind == basicLit || isConstantValue(n.rval.Type()))
+	for n.kind == parenExpr {
+		n = n.child[0]
+	}
+	if !n.rval.IsValid() || !isString(n.typ.TypeOf()) {
+		return false
+	}
+	if n.kind == identExpr || n.kind == selectorExpr {
+		// The symbol of a package may be a variable.
+		return isConstantValue(n.rval.Type())
+	}
+	return true // A literal, or a conversion or concatenation of constants, typed or not.
 }
 
 // isNewDefine returns true if node refers to a new definition.
